@@ -45,24 +45,24 @@ type StoreStep struct {
 
 // StoreDims are the harness dimensions of store replays.
 type StoreDims struct {
-	NKeys     int    `json:"nkeys"`
-	NoSync    bool   `json:"noSync"`
-	KeepFiles bool   `json:"keepFiles"`
-	Variant   int    `json:"variant"`   // which concrete fault / tear variant of the abstract step
-	BigVals   bool   `json:"bigVals"`   // multi-page values
-	BufPages  int    `json:"bufPages"`  // CompactionBufferPages
-	CompSync  bool   `json:"compSync"`  // CompactionSync
-	Seed      int64  `json:"seed"`
+	NKeys      int   `json:"nkeys"`
+	NoSync     bool  `json:"noSync"`
+	KeepFiles  bool  `json:"keepFiles"`
+	Variant    int   `json:"variant"`  // which concrete fault / tear variant of the abstract step
+	BigVals    bool  `json:"bigVals"`  // multi-page values
+	BufPages   int   `json:"bufPages"` // CompactionBufferPages
+	CompSync   bool  `json:"compSync"` // CompactionSync
+	Seed       int64 `json:"seed"`
 	CheckFiles bool  `json:"checkFiles"` // compare the directory listing with the model's (C07)
-	ROJunk    bool   `json:"roJunk"`    // drop junk files next to the data files before a read-only open
+	ROJunk     bool  `json:"roJunk"`     // drop junk files next to the data files before a read-only open
 }
 
 // FaultSpec says which file operation of the round in flight fails.
 type FaultSpec struct {
-	Step    int    // abstract step of MossStore (1 file, 2 segment, 3 sync, 4 footer, 5 sync)
-	Ordinal int    // which of the operations of that step
-	Kind    string // "err" | "short"
-	fired   bool
+	Step     int    // abstract step of MossStore (1 file, 2 segment, 3 sync, 4 footer, 5 sync)
+	Ordinal  int    // which of the operations of that step
+	Kind     string // "err" | "short"
+	fired    bool
 	seenSync int
 	seenData int
 	seenStat int
@@ -70,23 +70,23 @@ type FaultSpec struct {
 }
 
 type StoreSession struct {
-	D      StoreDims
-	dir    string
-	store  *moss.Store
-	coll   moss.Collection
-	sched  *Sched
-	flog   *FileLog
-	opts   moss.StorePersistOptions
-	fault  *FaultSpec
-	onErr  int
-	snaps  map[int]moss.Snapshot
-	ro     bool
-	persistErrs []string
-	roHash string
-	inflight string // kind of the round begun and not yet finished
-	pend   bool
-	closedColl bool
-	roRemovedFrom int
+	D                StoreDims
+	dir              string
+	store            *moss.Store
+	coll             moss.Collection
+	sched            *Sched
+	flog             *FileLog
+	opts             moss.StorePersistOptions
+	fault            *FaultSpec
+	onErr            int
+	snaps            map[int]moss.Snapshot
+	ro               bool
+	persistErrs      []string
+	roHash           string
+	inflight         string // kind of the round begun and not yet finished
+	pend             bool
+	closedColl       bool
+	roRemovedFrom    int
 	nothingCommitted bool // the model's store has never published a footer
 }
 
